@@ -15,6 +15,7 @@ import (
 	"testing"
 
 	"github.com/BondMachineHQ/BondMachine/pkg/bondmachine"
+	"github.com/BondMachineHQ/BondMachine/pkg/simbox"
 	"pgregory.net/rapid"
 	"verifharness/gen"
 	"verifharness/pbt"
@@ -34,6 +35,10 @@ type Case struct {
 	MaxProcs  int // GOMAXPROCS during the perturbed run
 	Single    bool // also call SinglePipelineSimulate concurrently and compare its report with the solo report
 	DataType  string // number type SinglePipelineSimulate prints the outputs in (static or dynamically created)
+	// Delays: fixed per-opcode latencies (single-valued distributions, so no random source is involved). ONE
+	// *simbox.SimDelays object is shared by every simulation of the case, as cmd/simfinetune shares it
+	// between its workers.
+	Delays map[string]int
 }
 
 func genPlan(t *rapid.T, pipelined bool) SimPlan {
@@ -71,6 +76,14 @@ func genCase(pipelined bool) func(t *rapid.T) Case {
 		c.YieldMax = rapid.IntRange(0, 3).Draw(t, "ymax")
 		c.MaxProcs = rapid.SampledFrom([]int{1, 2, 4, 16}).Draw(t, "gomaxprocs")
 		c.Single = rapid.Bool().Draw(t, "single")
+		if rapid.IntRange(0, 2).Draw(t, "withdelays") == 0 {
+			c.Delays = map[string]int{}
+			for _, op := range []string{"nop", "inc", "add", "i2rw", "r2owa", "j", "rset", "mult"} {
+				if rapid.IntRange(0, 2).Draw(t, "hasdelay") == 0 {
+					c.Delays[op] = rapid.IntRange(1, 3).Draw(t, "delay")
+				}
+			}
+		}
 		c.DataType = rapid.SampledFrom([]string{"unsigned", "float32", "dyn", "dyn"}).Draw(t, "dtype")
 		rs := c.Plans[0].Spec.Rsize
 		for _, p := range c.Plans {
@@ -92,8 +105,8 @@ func genCase(pipelined bool) func(t *rapid.T) Case {
 	}
 }
 
-func runPlan(bm *bondmachine.Bondmachine, p SimPlan) ([]string, [][]uint64, error) {
-	r, err := gen.NewRunner(bm, p.Env, nil)
+func runPlan(bm *bondmachine.Bondmachine, p SimPlan, delays *simbox.SimDelays) ([]string, [][]uint64, error) {
+	r, err := gen.NewRunner(bm, p.Env, delays)
 	if err != nil {
 		return nil, nil, err
 	}
@@ -128,6 +141,13 @@ func splitmix(x uint64) uint64 {
 }
 
 func prop(c Case) pbt.Outcome {
+	var delays *simbox.SimDelays
+	if len(c.Delays) > 0 {
+		delays = simbox.NewSimDelays()
+		for op, d := range c.Delays {
+			delays.OpcodeDelays[op] = simbox.DelayDistribution{int32(d): 1.0}
+		}
+	}
 	bms := make([]*bondmachine.Bondmachine, len(c.Plans))
 	for i, p := range c.Plans {
 		bm, err := gen.Build(p.Spec)
@@ -167,7 +187,7 @@ func prop(c Case) pbt.Outcome {
 			wg.Add(1)
 			go func(i, k int) {
 				defer wg.Done()
-				ds, out, err := runPlan(bms[i], c.Plans[i])
+				ds, out, err := runPlan(bms[i], c.Plans[i], delays)
 				mu.Lock()
 				defer mu.Unlock()
 				got = append(got, res{i: i, k: k, ds: ds, out: out, err: err})
@@ -186,7 +206,7 @@ func prop(c Case) pbt.Outcome {
 							err = fmt.Errorf("panic: %v", r)
 						}
 					}()
-					s, err = bms[i].SinglePipelineSimulate(c.DataType, singleIn(c.Plans[i]), nil)
+					s, err = bms[i].SinglePipelineSimulate(c.DataType, singleIn(c.Plans[i]), delays)
 				}()
 				mu.Lock()
 				defer mu.Unlock()
@@ -205,13 +225,13 @@ func prop(c Case) pbt.Outcome {
 	}
 	refs := make([]ref, len(c.Plans))
 	for i, p := range c.Plans {
-		ds, out, err := runPlan(bms[i], p)
+		ds, out, err := runPlan(bms[i], p, delays)
 		if err != nil {
 			return pbt.Outcome{Excluded: "sim-error"}
 		}
 		refs[i] = ref{ds: ds, out: out}
 		if c.Single {
-			s, err := bms[i].SinglePipelineSimulate(c.DataType, singleIn(p), nil)
+			s, err := bms[i].SinglePipelineSimulate(c.DataType, singleIn(p), delays)
 			if err != nil {
 				return pbt.Outcome{Excluded: "single-error"}
 			}
@@ -253,7 +273,7 @@ func prop(c Case) pbt.Outcome {
 			maxp = len(p.Spec.Procs)
 		}
 	}
-	labels := []string{fmt.Sprintf("gomaxprocs=%d", c.MaxProcs), fmt.Sprintf("yieldmax=%d", c.YieldMax), fmt.Sprintf("concurrent=%d", min(total, 6))}
+	labels := []string{fmt.Sprintf("delays=%v", len(c.Delays) > 0), fmt.Sprintf("gomaxprocs=%d", c.MaxProcs), fmt.Sprintf("yieldmax=%d", c.YieldMax), fmt.Sprintf("concurrent=%d", min(total, 6))}
 	nt := maxp >= 2 && (c.YieldMax > 0 || total >= 2)
 	return pbt.Outcome{NonTrivial: nt, Labels: labels, Fail: fail}
 }
